@@ -22,7 +22,11 @@
 //!         NFILES real uploads are bound to `$fs` first (indices 0..NFILES).
 //!         → (ok "fK") the forged position resolved to upload K | err | (panic "src/types/upload.rs")
 //!   stream `docs`
-//!     (doc MODE (lit "text")) | (doc MODE (nest KIND N))
+//!     (doc MODE [CFG] (lit "text")) | (doc MODE [CFG] (nest KIND N))
+//!         CFG  = (cfg DIRS DEPTH CPLX RDEPTH FAST NOINTRO)   schema configuration for exec modes
+//!                DIRS/DEPTH/CPLX/RDEPTH = - | N   `limit_directives` / `limit_depth` /
+//!                `limit_complexity` / `limit_recursive_depth`; FAST = 0|1 `ValidationMode::Fast`;
+//!                NOINTRO = 0|1 `disable_introspection`; absent = the default schema
 //!         MODE = parse (`parse_query`) | exec (`Schema::execute`) | parse2m / exec2m (the same on
 //!                a thread with a 2 MiB stack, tokio's worker default)
 //!         KIND = see `nest_doc` (the Lean driver expands the same families)
@@ -195,6 +199,37 @@ type Sch = Schema<Q, M, S>;
 
 fn schema() -> Sch {
     Schema::build(Q, M, S).finish()
+}
+
+/// `(cfg DIRS DEPTH CPLX RDEPTH FAST NOINTRO)`
+fn schema_cfg(cfg: &Sexp) -> Option<Sch> {
+    let a = cfg.args();
+    let lim = |i: usize| -> Option<Option<usize>> {
+        match a.get(i)? {
+            Sexp::Atom(x) if x == "-" => Some(None),
+            x => Some(Some(x.as_usize()?)),
+        }
+    };
+    let mut b = Schema::build(Q, M, S);
+    if let Some(n) = lim(0)? {
+        b = b.limit_directives(n);
+    }
+    if let Some(n) = lim(1)? {
+        b = b.limit_depth(n);
+    }
+    if let Some(n) = lim(2)? {
+        b = b.limit_complexity(n);
+    }
+    if let Some(n) = lim(3)? {
+        b = b.limit_recursive_depth(n);
+    }
+    if a.get(4)?.as_atom()? == "1" {
+        b = b.validation_mode(async_graphql::ValidationMode::Fast);
+    }
+    if a.get(5)?.as_atom()? == "1" {
+        b = b.disable_introspection();
+    }
+    Some(b.finish())
 }
 
 // ------------------------------------------------------------------ budgets
@@ -416,6 +451,43 @@ fn nest_doc(kind: &str, n: usize) -> Option<String> {
             s.push_str(&format!("fragment f{m} on Q{{s}}"));
             s
         }
+        // what the pre-execution guards are supposed to stop (n = length of the cycle / count)
+        "cycreach" => {
+            // a cycle of n fragments reachable from the operation, every field carries a directive
+            let mut s = String::from("{s ...f0}");
+            for i in 0..=m {
+                s.push_str(&format!("fragment f{} on Q{{s @include(if:true) ...f{}}}", i, if i == m { 0 } else { i + 1 }));
+            }
+            s
+        }
+        "cycinline" => {
+            // the cycle is entered and closed only through inline fragments
+            let mut s = String::from("{... on Q{...f0}}");
+            for i in 0..=m {
+                s.push_str(&format!("fragment f{} on Q{{... on Q{{a{{...f{}}}}}}}", i, if i == m { 0 } else { i + 1 }));
+            }
+            s
+        }
+        "cycunreach" => {
+            // the operation does not reach the cycle
+            let mut s = String::from("{s}");
+            for i in 0..=m {
+                s.push_str(&format!("fragment f{} on Q{{...f{}}}", i, if i == m { 0 } else { i + 1 }));
+            }
+            s
+        }
+        "undefspread" => format!("{{s {}}}", rep("...Nope ", n)),
+        "undefchain" => {
+            // a chain of n fragments whose last one spreads an undefined fragment
+            let mut s = String::from("{...f0}");
+            for i in 0..=m {
+                s.push_str(&format!("fragment f{} on Q{{...{}}}", i, if i == m { "Nope".to_string() } else { format!("f{}", i + 1) }));
+            }
+            s
+        }
+        "dirsdeep" => format!("{}{{s{}{}", rep("{a", 2), rep("@include(if:true)", n), rep("}", 3)),
+        "dirsfrag" => format!("{{...F}}fragment F on Q{{s{}}}", rep("@skip(if:false)", n)),
+        "intro" => format!("{{__schema{{types{{{}name{}}}}}}}", rep("fields{type{", n), rep("}}", n)),
         "fragbomb" => {
             // a DAG, not a cycle: every fragment spreads the next one four times (4^(n-1) paths)
             let mut s = String::from("{...f0}");
@@ -444,7 +516,7 @@ fn doc_text(spec: &Sexp) -> Option<String> {
     }
 }
 
-fn run_doc_here(mode: &str, text: String) -> Sexp {
+fn run_doc_here(mode: &str, sch: Option<Sch>, text: String) -> Sexp {
     if mode.starts_with("parse") {
         match async_graphql_parser::parse_query(&text) {
             Ok(d) => {
@@ -454,7 +526,7 @@ fn run_doc_here(mode: &str, text: String) -> Sexp {
             Err(_) => atom("err"),
         }
     } else {
-        let sch = schema();
+        let sch = sch.unwrap_or_else(schema);
         match run_budget(sch.execute(Request::new(text))) {
             Some(r) => {
                 if r.errors.is_empty() {
@@ -470,13 +542,14 @@ fn run_doc_here(mode: &str, text: String) -> Sexp {
 
 fn run_doc(a: &[Sexp]) -> Option<Sexp> {
     let mode = a.first()?.as_atom()?.to_string();
-    let text = doc_text(a.get(1)?)?;
+    let (sch, spec) = if a.get(1)?.tag() == Some("cfg") { (Some(schema_cfg(a.get(1)?)?), a.get(2)?) } else { (None, a.get(1)?) };
+    let text = doc_text(spec)?;
     if mode.ends_with("2m") {
         // tokio's default worker-thread stack
-        let h = std::thread::Builder::new().stack_size(2 * 1024 * 1024).spawn(move || guarded(|| run_doc_here(&mode, text))).ok()?;
+        let h = std::thread::Builder::new().stack_size(2 * 1024 * 1024).spawn(move || guarded(|| run_doc_here(&mode, sch, text))).ok()?;
         h.join().ok()
     } else {
-        Some(run_doc_here(&mode, text))
+        Some(run_doc_here(&mode, sch, text))
     }
 }
 
@@ -754,6 +827,8 @@ fn gen_marker(rng: &mut Rng, dist: &mut Dist) -> Sexp {
 
 const BASE_DOCS: &[&str] = &[
     "{s}",
+    "{...A} fragment A on Q{s ...B} fragment B on Q{s @skip(if:false) ...on Q{a{...A}}}",
+    "{s @include(if:true) @skip(if:false) ...Nope ...on Q @include(if:true){s}}",
     "{a{a{s}}}",
     "query Q($i:Int=3,$o:In={n:1,nested:{id:\"x\",c:RED}}){t(i:$i,o:$o,l:[[1,2],null],m:null,e:GREEN,f:1.5e3,b:true,id:7,s:\"a\\u00e9\\n\")}",
     "mutation($v:Upload,$fs:[Upload!]){r:probe(single:$v,fs:$fs)}",
@@ -826,7 +901,31 @@ fn mutate(rng: &mut Rng, base: &str, dist: &mut Dist) -> String {
 
 const NEST_KINDS: &[&str] = &[
     "list", "obj", "sel", "inline", "type", "constlist", "listopen", "objopen", "selopen", "widelist", "widefields", "widedirs", "fragchain", "fragcycle",
+    "cycreach", "cycinline", "cycunreach", "undefspread", "undefchain", "dirsdeep", "dirsfrag", "intro", "fragcycle", "cycreach",
 ];
+
+fn gen_cfg(rng: &mut Rng, dist: &mut Dist) -> Option<Sexp> {
+    if rng.chance(1, 3) {
+        dist.hit("cfg_default");
+        return None;
+    }
+    let lim = |rng: &mut Rng, p: usize, vals: &[usize]| -> Sexp { if rng.chance(p, 10) { num(*rng.pick(vals)) } else { atom("-") } };
+    let dirs = lim(rng, 6, &[0, 1, 2, 5, 1000]);
+    let depth = lim(rng, 4, &[1, 3, 10, 100]);
+    let cplx = lim(rng, 4, &[1, 5, 50, 100000]);
+    let rdepth = lim(rng, 5, &[0, 1, 5, 40, 200]);
+    let fast = num(rng.chance(1, 3) as usize);
+    let nointro = num(rng.chance(1, 4) as usize);
+    for (k, v) in [("dirs", &dirs), ("depth", &depth), ("cplx", &cplx), ("rdepth", &rdepth)] {
+        if v.as_atom() != Some("-") {
+            dist.hit(&format!("cfg_limit_{k}"));
+        }
+    }
+    if fast.as_atom() == Some("1") {
+        dist.hit("cfg_fast_validation");
+    }
+    Some(node("cfg", vec![dirs, depth, cplx, rdepth, fast, nointro]))
+}
 
 fn gen_doc(rng: &mut Rng, i: usize, o: &Opts, dist: &mut Dist) -> Sexp {
     // the first cases of a run: calibration of the abort threshold
@@ -847,10 +946,16 @@ fn gen_doc(rng: &mut Rng, i: usize, o: &Opts, dist: &mut Dist) -> Sexp {
             _ => *rng.pick(&[20_000usize, 50_000]),
         };
         // chains of n fragments are quadratic in some validation rules: keep them moderate
-        let n = if kind.starts_with("frag") { n.min(2000) } else { n };
+        let n = if kind.starts_with("frag") || kind.starts_with("cyc") || kind.starts_with("undef") { n.min(2000) } else { n };
+        let n = if kind == "intro" { n.min(12) } else { n };
         dist.hit(&format!("nest_{kind}"));
         dist.hit(&format!("nest_depth_{}", if n < 64 { "lt64" } else if n < 1000 { "lt1000" } else { "ge1000" }));
-        node("doc", vec![atom(mode), node("nest", vec![atom(kind), num(n)])])
+        let mut v = vec![atom(mode)];
+        if mode.starts_with("exec") {
+            v.extend(gen_cfg(rng, dist));
+        }
+        v.push(node("nest", vec![atom(kind), num(n)]));
+        node("doc", v)
     } else {
         let base = *rng.pick(BASE_DOCS);
         let text = if rng.chance(1, 12) {
@@ -860,7 +965,12 @@ fn gen_doc(rng: &mut Rng, i: usize, o: &Opts, dist: &mut Dist) -> Sexp {
             mutate(rng, base, dist)
         };
         dist.hit("doc_literal");
-        node("doc", vec![atom(mode), node("lit", vec![st(text)])])
+        let mut v = vec![atom(mode)];
+        if mode.starts_with("exec") {
+            v.extend(gen_cfg(rng, dist));
+        }
+        v.push(node("lit", vec![st(text)]));
+        node("doc", v)
     }
 }
 
